@@ -1089,7 +1089,7 @@ fn pick_spends_ext(rng: &mut Rng, cands: &BTreeSet<u64>, n: u64, st: &mut XStats
 fn ext(out: &mut Out, rng: &mut Rng, thorough: bool) {
 	let work = std::env::var("VERIF_WORK").unwrap_or_else(|_| "target/verif_work_bitmap".to_string());
 	let mut st = XStats::default();
-	let (nh, steps) = if thorough { (40, 45) } else { (5, 28) };
+	let (nh, steps) = if thorough { (150, 45) } else { (14, 28) };
 	for h in 0..nh {
 		st.histories += 1;
 		out.raw("bitmap new 2");
